@@ -761,7 +761,7 @@ func (e *Enc) loopHeader(fr *Frame, li *LoopInfo, guard T, st *State) (T, *State
 	if spec == nil || (len(spec.Invariants) == 0 && !spec.Body) {
 		// no invariant given: the loop is abstracted by `true` (everything it writes is havoc'd)
 		e.approximate(fmt.Sprintf("loop %d of %s has no invariant: abstracted by havoc of what it writes", li.ord, fr.fn.Name()))
-		spec = &LoopSpec{Ord: li.ord}
+		spec = &LoopSpec{Ord: li.ord, FrameFresh: spec != nil && spec.FrameFresh}
 	}
 	hdr := li.header
 	// 1. invariant holds on entry
@@ -812,6 +812,10 @@ func (e *Enc) loopHeader(fr *Frame, li *LoopInfo, guard T, st *State) (T, *State
 			// frame: the loop writes this component only at objects known before the loop, so every
 			// other object's entry is untouched
 			ksp, kty := heapKeyType(k)
+			if os.Getenv("GOVC_APPROX") != "" && spec.FrameFresh && e.discovery == 0 {
+				_, has := e.lastLoopInv[k]
+				fmt.Fprintf(os.Stderr, "frame fresh loop %d of %s key %s: hasRefs=%v unref=%v fam=%v sort=%v\n", li.ord, e.fnName, k, has, e.lastLoopUnref[k], fams[ksp+"|"+kty], srt)
+			}
 			if inv, has := e.lastLoopInv[k]; has && spec.FrameFresh && srt.K == SArray && srt.Idx.K == SInt && !strings.HasPrefix(k, "G|") && !fams[ksp+"|"+kty] && !e.lastLoopUnref[k] {
 				if _, allKnown := e.lastLoopRefs[k]; !allKnown {
 					// `frame fresh`: objects that existed when the region was entered and are not written
@@ -966,6 +970,13 @@ func (e *Enc) discoverWrites(fr *Frame, li *LoopInfo, guard T, st *State) map[st
 			}
 		}()
 		st2 := st.clone()
+		// the allocation frontier of an arbitrary iteration is not the one before the loop: objects
+		// allocated in the body are not loop-invariant references
+		if oldTop := e.heapGet(st2, "!top", IntS); true {
+			nt := e.declare(IntS, "d_top")
+			e.assert(T{BoolS, app("<=", oldTop.E, nt.E)})
+			st2.H["!top"] = nt
+		}
 		// phis get arbitrary values
 		for _, ins := range li.header.Instrs {
 			phi, ok := ins.(*ssa.Phi)
@@ -1129,6 +1140,14 @@ func (e *Enc) edge(fr *Frame, from, to *ssa.BasicBlock, guard T, st *State) {
 	}
 	if to.Dominates(from) {
 		// back edge
+		if fr.region != nil && !fr.region[to] {
+			// back edge of an enclosing loop taken from a tail of the encoded region: leaves the region
+			// (the region loop's own condition exit is not a break: no `body exit` clause applies there)
+			if fr.regionLoop == nil || from != fr.regionLoop.header {
+				e.exitEdge(fr, from, to, guard, st)
+			}
+			return
+		}
 		e.backEdge(fr, from, to, guard, st)
 		return
 	}
@@ -1412,7 +1431,7 @@ func bodyRegion(li *LoopInfo) map[*ssa.BasicBlock]bool {
 	for changed := true; changed; {
 		changed = false
 		for _, b := range li.header.Parent().Blocks {
-			if r[b] || !li.header.Dominates(b) || b == natural || (natural != nil && natural.Dominates(b)) || len(b.Preds) == 0 {
+			if r[b] || !li.header.Dominates(b) || b == natural || (natural != nil && natural.Dominates(b) && !natural.Dominates(li.header)) || len(b.Preds) == 0 {
 				continue
 			}
 			all := true
